@@ -87,7 +87,7 @@ class ClassTable:
     # ---------------------------------------------------------------- loading
     def _load_repo(self):
         base = os.path.join(self.repo, 'supvisors')
-        for sub, prefix in (('', ''), ('internal_com', 'internal_com.')):
+        for sub, prefix in (('', ''), ('internal_com', 'internal_com.'), ('external_com', 'external_com.')):
             d = os.path.join(base, sub)
             for fn in sorted(os.listdir(d)):
                 if fn.endswith('.py') and fn not in ('__init__.py', 'supvisorsctl.py'):
